@@ -123,11 +123,14 @@ def finish(pid, tier, t0, design, verdicts, known=None, extra_cov=None, assumpti
     kf = known_findings()
     fresh = []
     seen_known = {}
+    cache = {}
     for x in viols:
         ev = None
         key = None
         if known:
-            evs = read_ndjson(x["trace"])
+            if x["trace"] not in cache:      # one pass per trace file, not one per violation
+                cache[x["trace"]] = read_ndjson(x["trace"])
+            evs = cache[x["trace"]]
             ev = evs[x["l"] - 1]
             key = known(ev, x)
         m = [k for k in kf if k["property"] == pid and key is not None and k["key"] == key]
